@@ -481,6 +481,26 @@ def replay(ctx, rp):
 
 
 def run(ctx):
+    """a run against a private copy of the headers (VERIF_REPO: mutants, seeds, reverted fixes) must not disturb the records of the real
+    tree: the previous evidence/C09.json is restored afterwards and the replays such a run wrote are moved to build/C09/mutant-replays/"""
+    if os.environ.get('VERIF_REPO') is None:
+        return run_checked(ctx)
+    import shutil, glob
+    ev = os.path.join(ctx.root, 'evidence', ctx.id + '.json')
+    saved = open(ev).read() if os.path.exists(ev) else None
+    before = set(glob.glob(os.path.join(ctx.root, 'replays', ctx.id + '-*.json')))
+    rc = run_checked(ctx)
+    if os.path.exists(ev): shutil.copy(ev, os.path.join(ctx.build, 'evidence-mutant.json'))
+    if saved is not None: open(ev, 'w').write(saved)
+    elif os.path.exists(ev): os.remove(ev)
+    dst = os.path.join(ctx.build, 'mutant-replays'); os.makedirs(dst, exist_ok=True)
+    for f in set(glob.glob(os.path.join(ctx.root, 'replays', ctx.id + '-*.json'))) - before:
+        shutil.move(f, os.path.join(dst, os.path.basename(f)))
+    print('(VERIF_REPO run: evidence/%s.json restored, this run\'s copy is build/%s/evidence-mutant.json; replays moved to %s)' % (ctx.id, ctx.id, dst), flush=True)
+    return rc
+
+
+def run_checked(ctx):
     scale = 1 if ctx.quick() else 6
     ctx.trusted += ['tools/cxx2coq.py + clang 14 JSON AST (validated on every run against the real functions)',
                     'extraction: ExtrOcamlBasic only (no Extract Constant), OCaml 4.13.1, zarith for decimal I/O only',
